@@ -233,6 +233,138 @@ def _dumper_for(loader_cls):
     return ReplayDumper
 
 
+STYLE_FAITHFUL = [False]      # set by harnesses whose subject is node style
+
+
+def _styles(node, out=None):
+    out = [] if out is None else out
+    if isinstance(node, yaml.ScalarNode):
+        out.append(node.style or '')
+    elif isinstance(node, yaml.SequenceNode):
+        out.append('empty' if not node.value else
+                   'flow' if node.flow_style else 'block')
+        for x in node.value:
+            _styles(x, out)
+    else:
+        out.append('empty' if not node.value else
+                   'flow' if node.flow_style else 'block')
+        for k, v in node.value:
+            _styles(k, out)
+            _styles(v, out)
+    return out
+
+
+def simple_text(tree, loader_cls):
+    """A small emitter that, unlike yaml.serialize, keeps the requested style
+    of every scalar (a plain scalar with an explicit tag stays plain) and
+    collection.  Returns None when the tree is outside what it handles
+    (complex keys, shared nodes, odd characters); the caller then falls back
+    to yaml.serialize.  The result is validated by the caller."""
+    import json
+    import re
+    ldr = loader_cls('')
+    seen = set()
+    plain_ok = re.compile(r"[A-Za-z0-9_./+-][A-Za-z0-9_ ./+:-]*\Z")
+
+    class Unsupported(Exception):
+        pass
+
+    def tagtext(tag):
+        if tag.startswith('tag:yaml.org,2002:') and re.fullmatch(
+                r'[\w:./-]+', tag[18:]):
+            return '!!' + tag[18:]
+        if re.fullmatch(r'![A-Za-z0-9_]+', tag):
+            return tag
+        if re.fullmatch(r"[\w:,./!-]+", tag):
+            return '!<%s>' % tag
+        raise Unsupported(tag)
+
+    def scalar(n):
+        v = n.value
+        style = n.style
+        if style in (None, ''):
+            if not plain_ok.match(v) or ': ' in v or ' #' in v or \
+                    v.endswith(' ') or v.endswith(':') or v in ('-', '---'):
+                raise Unsupported('not plain-safe')
+            body = v
+            implicit = ldr.resolve(yaml.ScalarNode, v, (True, False))
+        elif style == '"':
+            if any(ord(ch) < 32 or 0xD800 <= ord(ch) <= 0xDFFF for ch in v):
+                raise Unsupported('control')
+            body = json.dumps(v, ensure_ascii=False)
+            implicit = 'tag:yaml.org,2002:str'
+        elif style == "'":
+            if any(ord(ch) < 32 for ch in v):
+                raise Unsupported('control')
+            body = "'" + v.replace("'", "''") + "'"
+            implicit = 'tag:yaml.org,2002:str'
+        else:
+            raise Unsupported(style)
+        return body if n.tag == implicit else tagtext(n.tag) + ' ' + body
+
+    def flow(n):
+        if id(n) in seen:
+            raise Unsupported('shared')
+        seen.add(id(n))
+        if isinstance(n, yaml.ScalarNode):
+            return scalar(n)
+        if isinstance(n, yaml.SequenceNode):
+            pre = '' if n.tag == T_SEQ else tagtext(n.tag) + ' '
+            return pre + '[' + ', '.join(flow(x) for x in n.value) + ']'
+        pre = '' if n.tag == T_MAP else tagtext(n.tag) + ' '
+        parts = []
+        for k, v in n.value:
+            if not isinstance(k, yaml.ScalarNode):
+                raise Unsupported('complex key')
+            parts.append(flow(k) + ': ' + flow(v))
+        return pre + '{' + ', '.join(parts) + '}'
+
+    def block(n, ind, lines, head):
+        """Emit n; `head` is the text already on the current line."""
+        if isinstance(n, yaml.ScalarNode) or n.flow_style or not n.value:
+            lines.append(head + flow(n))
+            return
+        if id(n) in seen:
+            raise Unsupported('shared')
+        seen.add(id(n))
+        std = T_SEQ if isinstance(n, yaml.SequenceNode) else T_MAP
+        if n.tag != std:
+            head = head + tagtext(n.tag)
+        if head.strip():
+            lines.append(head.rstrip())
+        pad = ' ' * ind
+        if isinstance(n, yaml.SequenceNode):
+            for x in n.value:
+                if isinstance(x, yaml.ScalarNode) or x.flow_style or \
+                        not x.value:
+                    lines.append(pad + '- ' + flow(x))
+                else:
+                    block(x, ind + 2, lines, pad + '- ')
+            return
+        for k, v in n.value:
+            if not isinstance(k, yaml.ScalarNode):
+                raise Unsupported('complex key')
+            kt = scalar(k)
+            if isinstance(v, yaml.ScalarNode) or v.flow_style or not v.value:
+                lines.append(pad + kt + ': ' + flow(v))
+            else:
+                block(v, ind + 2, lines, pad + kt + ': ')
+    try:
+        lines = []
+        if isinstance(tree, yaml.ScalarNode) or tree.flow_style or \
+                not tree.value:
+            lines.append(flow(tree))
+        else:
+            block(tree, 0, lines, '')
+        # "- " items / "key: " heads that open a nested block keep their
+        # children on the following lines, indented
+        return '\n'.join(lines) + '\n'
+    except Unsupported:
+        return None
+    finally:
+        ldr.dispose()
+
+
 def tree_to_text(tree, loader_cls) -> str:
     """Serialise a node tree to YAML text and check that the real composer
     gives the same (kind, tag, value, sharing) tree back."""
@@ -247,14 +379,20 @@ def tree_to_text(tree, loader_cls) -> str:
     else:
         text = yaml.serialize(tree, Dumper=_dumper_for(loader_cls),
                               allow_unicode=True, width=10000)
-    def composes_back(t):
+    def composes_back(t, styles=False):
         ldr = loader_cls(t)
         try:
-            return tree_sig(_REAL_COMPOSER_GSN(ldr)) == tree_sig(tree)
+            back = _REAL_COMPOSER_GSN(ldr)
+            return tree_sig(back) == tree_sig(tree) and (
+                not styles or _styles(back) == _styles(tree))
         except yaml.YAMLError:
             return False
         finally:
             ldr.dispose()
+    if STYLE_FAITHFUL[0] and tree is not None:
+        st = simple_text(tree, loader_cls)
+        if st is not None and composes_back(st, styles=True):
+            return st
     # the symbolic marks point into a line that holds format metacharacters
     # (_SNIPPET); give every real line the same property through a comment
     noisy = ''.join(
